@@ -4,6 +4,7 @@ def b_Environment_create_node : CR.SrcW.Builder where
   kind := .node
   tag := "environment"
   xsd := "environment"
+  path := []
   parent := ""
   attrs := []
   gattrs := []
@@ -28,7 +29,8 @@ def b_Environment_create_node_underground : CR.SrcW.Builder where
   key := "EnvironmentXMLNode.create_node/underground"
   kind := .node
   tag := "underground"
-  xsd := ""
+  xsd := "environment"
+  path := ["underground"]
   parent := "EnvironmentXMLNode.create_node"
   attrs := []
   gattrs := []
@@ -41,7 +43,8 @@ def b_Environment_create_node_weather : CR.SrcW.Builder where
   key := "EnvironmentXMLNode.create_node/weather"
   kind := .node
   tag := "weather"
-  xsd := ""
+  xsd := "environment"
+  path := ["weather"]
   parent := "EnvironmentXMLNode.create_node"
   attrs := []
   gattrs := []
@@ -54,7 +57,8 @@ def b_Environment_create_node_timeOfDay : CR.SrcW.Builder where
   key := "EnvironmentXMLNode.create_node/timeOfDay"
   kind := .node
   tag := "timeOfDay"
-  xsd := ""
+  xsd := "environment"
+  path := ["timeOfDay"]
   parent := "EnvironmentXMLNode.create_node"
   attrs := []
   gattrs := []
@@ -67,7 +71,8 @@ def b_Environment_create_node_time : CR.SrcW.Builder where
   key := "EnvironmentXMLNode.create_node/time"
   kind := .node
   tag := "time"
-  xsd := ""
+  xsd := "environment"
+  path := ["time"]
   parent := "EnvironmentXMLNode.create_node"
   attrs := []
   gattrs := []
